@@ -39,6 +39,8 @@ type Value struct {
 	Unordered bool // VObj derived from a Go map: member order is not significant
 	Len       int  // announced length
 	BT        structform.BaseType
+
+	outOfRange bool // reference JSON decoder: literal may be rejected/widened by the library
 }
 
 func IntV(i int64) Value {
@@ -54,12 +56,12 @@ func NegV(mag uint64) Value {
 	}
 	return Value{K: VInt, Neg: true, Mag: mag}
 }
-func StrV(s string) Value     { return Value{K: VStr, S: s} }
-func BoolV(b bool) Value      { return Value{K: VBool, B: b} }
-func NullV() Value            { return Value{K: VNull} }
-func F32V(bits uint32) Value  { return Value{K: VF32, Bits: uint64(bits)} }
-func F64V(bits uint64) Value  { return Value{K: VF64, Bits: bits} }
-func ArrV(el ...Value) Value  { return Value{K: VArr, Elems: el, Len: -1} }
+func StrV(s string) Value    { return Value{K: VStr, S: s} }
+func BoolV(b bool) Value     { return Value{K: VBool, B: b} }
+func NullV() Value           { return Value{K: VNull} }
+func F32V(bits uint32) Value { return Value{K: VF32, Bits: uint64(bits)} }
+func F64V(bits uint64) Value { return Value{K: VF64, Bits: bits} }
+func ArrV(el ...Value) Value { return Value{K: VArr, Elems: el, Len: -1} }
 func ObjV(keys []string, el []Value) Value {
 	return Value{K: VObj, Keys: keys, Elems: el, Len: -1}
 }
